@@ -7,7 +7,7 @@ From Coq Require Import List NArith Arith Bool String.
 From SV Require Import Fmt.LongString Fmt.LongStringProofs Fmt.FgdBin Fmt.FgdBinProofs SM.LazyDb SM.LazyDbProofs SM.LazyDbMulti SM.LazyDbMultiProofs.
 From SV Require Import Fmt.FgdBinEnt Fmt.FgdBinEntProofs Fmt.FgdLine Fmt.FgdLineProofs Fmt.FgdLineTextProofs Fmt.FgdBody Fmt.FgdBodyProofs.
 From SV Require Import Fmt.FgdHead Fmt.FgdHeadProofs Fmt.FgdEntity Fmt.FgdEntityProofs.
-From SV Require Import Fmt.FgdTypeText Fmt.FgdTypeTextProofs SM.FgdBlocks SM.FgdBlocksProofs.
+From SV Require Import Fmt.FgdTypeText Fmt.FgdTypeTextProofs SM.FgdBlocks SM.FgdBlocksProofs Fmt.FgdKindKw Fmt.FgdKindKwProofs.
 From SV Require Import Gen.FgdConsts_gen.
 Import ListNotations.
 Open Scope N_scope.
@@ -807,3 +807,103 @@ Example c16_blocks_example :
   build {| merge_fits := N.leb; add_fits := N.ltb; ovf_full := fun a b => N.leb b a; drop_empty_before_leftovers := false;
            drop_empty_after_leftovers := true |} (fun _ => 4) 10 all pairs = [[1; 2]; [3; 4]; [5; 6]].
 Proof. vm_compute. auto. Qed.
+
+(** * The keyword that opens an entity definition and the top-level dispatch of FGD.parse_file (Fmt/FgdKindKw.v; round 4)
+    [pf_directives], [pf_token_folded], [entity_kind_values], [kind_writer_ops] are read off FGD.parse_file, EntityTypes and
+    EntityDef.export on every run. *)
+Definition kind_keywords_read_back : bool := kinds_read_back pf_token_folded pf_directives entity_kind_values kind_writer_ops.
+Definition unfolded_dispatch_breaks : bool := negb (kinds_read_back false pf_directives entity_kind_values kind_writer_ops).
+Theorem c16_kind_keyword_roundtrip : forall folded directives kinds ops,
+  kinds_read_back folded directives kinds ops = true ->
+  forall v, In v kinds -> kw_dispatch folded directives kinds (kind_written ops v) = KKind v.
+Proof. exact kind_keyword_roundtrip. Qed.
+(** `@PointClass` is what the writer makes of `pointclass`; compared without casefold it is not an entity kind *)
+Example c16_kind_keyword_example :
+  let ops := [WTitle; WReplace [99; 108; 97; 115; 115] [67; 108; 97; 115; 115]] in
+  let pc := [112; 111; 105; 110; 116; 99; 108; 97; 115; 115] in
+  kind_written ops pc = [64; 80; 111; 105; 110; 116; 67; 108; 97; 115; 115] /\
+  kw_dispatch true [[64; 105]] [pc] (kind_written ops pc) = KKind pc /\ kw_dispatch false [[64; 105]] [pc] (kind_written ops pc) = KError.
+Proof. vm_compute. auto. Qed.
+
+(** * The whole property in one statement, for today's source (round 4)
+    The hypotheses are the named booleans over the objects that translate/c16_fgd.py regenerates from the source on every run; the
+    check discharges each of them, and their conjunction [c16_property_hypotheses], by vm_compute (instance obligations).  The
+    conclusion instantiates the parts above at those objects:
+    text — a whole entity definition as written (header, keyvalue / spawnflag / choices / I/O lines, @resources) is read back, with
+    [gen_line_cfg]; the type between the parentheses with [kv_type_prog] / [io_type_prog] / [vt_lookup_tab] (custom names verbatim,
+    known names idempotent); the kind keyword with the dispatch chain of FGD.parse_file;
+    binary — every entity is in exactly one block for [gen_bcfg] (records, blocks, header: c16_ent_bin_roundtrip,
+    c16_block_bin_roundtrip, c16_db_header_roundtrip are unconditional in the generated objects except for [bin_tables_ok]);
+    lazy — every history of one-at-a-time look-ups over a list of databases = the merged whole database, in the modes read from
+    the source. *)
+Definition entity_text_roundtrip_at (cfg : line_cfg) : Prop :=
+  forall (tag_norm : str -> str) (tags_valid : list str -> bool) (vt : Type) (vt_text : vt -> str) (vt_lookup : str -> option (bool * vt))
+         (vt_is_bool vt_is_flags vt_is_choices : vt -> bool) (io_text : vt -> str) (io_lookup : str -> option vt) (io_decay : vt -> vt)
+         (dec : N -> str) (undec : str -> option N) (pow2 : N -> bool) (rt : Type) (rt_text : rt -> str)
+         (rt_lookup : str -> option rt)
+         (H : Type) (known : str -> bool) (hparse : str -> list str -> option H) (hunknown : str -> list str -> H),
+  (forall v, vt_lookup (vt_text v) = Some (false, v)) -> (forall v, io_lookup (io_text v) = Some (io_decay v)) ->
+  (forall n, undec (dec n) = Some n) -> (forall t, rt_lookup (rt_text t) = Some t) ->
+  known KW_BASE = true -> known KW_ALIASOF = false ->
+  forall (label custom alias : bool) (bases : list str) (forms : list hform) (hidden : bool) (hs : list H) (cls : str) (secs : list str)
+         (items : list (nat * item vt)) (res : resources rt) (rest : list tok),
+  bases_ok bases -> Forall2 (form_ok H known hparse hunknown) forms hs -> strip cls = cls ->
+  Forall (item_wf tag_norm tags_valid vt vt_is_bool vt_is_flags vt_is_choices dec pow2 cfg label) (map snd items) ->
+  match res with Some l => Forall (riwf tag_norm tags_valid rt) l | None => True end ->
+  entity_read tag_norm tags_valid vt vt_lookup vt_is_bool vt_is_flags vt_is_choices io_lookup dec undec pow2 rt rt_lookup H known hparse hunknown
+    (entity_toks vt vt_text vt_is_bool vt_is_flags io_text dec cfg rt rt_text label custom alias bases forms hidden cls secs items res ++ rest)
+  = Some (mk_head H (match bases with [] => false | _ => alias && custom end) bases hs cls (List.concat secs),
+          with_res vt rt (fold_left (add_item vt vt_is_bool io_decay cfg rt custom) (map snd items) (mk_body vt rt [] [] [] None))
+                   (if custom then res else None),
+          rest).
+Definition multi_lazy_equals_eager_at (via : bool) (mode : merge_mode) : Prop :=
+  forall (name ent bytes : Type) (name_eqb : name -> name -> bool),
+  (forall a b, name_eqb a b = true <-> a = b) ->
+  forall (decode : list name -> bytes -> list ent),
+  (forall cs data, List.length (decode cs data) = List.length cs) ->
+  forall (ent_bases : ent -> list name) (is_empty : bytes -> bool) (empty_bytes : bytes),
+  is_empty empty_bytes = true ->
+  forall (f g : nat) (Bs : list (list (block name bytes))) (qs : list name),
+  Forall (file_ok name bytes is_empty) Bs ->
+  Forall (fun B => (List.length B <= f)%nat) Bs -> Forall (fun B => (List.length B <= g)%nat) Bs ->
+  fst (run_defs name ent bytes name_eqb decode ent_bases is_empty empty_bytes via f (map (init name ent bytes) Bs) qs)
+  = map (engine_dbase name ent bytes name_eqb decode ent_bases is_empty empty_bytes via mode g Bs) qs.
+Definition c16_property_hypotheses : bool :=
+  line_cfg_ok gen_line_cfg && kv_type_prog_ok && io_type_prog_ok && type_table_ok && kind_keywords_read_back
+  && blocks_cfg_ok && lazy_via_get_ent && multi_modes_agree.
+Fact and8_true (a b c d e f g h : bool) : a && b && c && d && e && f && g && h = true ->
+  a = true /\ b = true /\ c = true /\ d = true /\ e = true /\ f = true /\ g = true /\ h = true.
+Proof. destruct a, b, c, d, e, f, g, h; cbn; intros; try discriminate; repeat split. Qed.
+Fact line_cfg_ok_parts (c : line_cfg) : line_cfg_ok c = true -> colons_before_desc_without_default c = 2%nat /\ res_block_if_defined c = true.
+Proof.
+  unfold line_cfg_ok. intros H. apply andb_true_iff in H as [H R]. apply andb_true_iff in H as [H _]. split; [apply Nat.eqb_eq; exact H | exact R].
+Qed.
+Fact merge_is_first_eq (m : merge_mode) : merge_is_first m = true -> m = FirstWins.
+Proof. destruct m; [reflexivity | discriminate]. Qed.
+Theorem c16_property : c16_property_hypotheses = true ->
+  entity_text_roundtrip_at gen_line_cfg
+  /\ ((forall s, strip s = s -> starts_star s = false -> assoc (lower s) vt_lookup_tab = None ->
+         trun lower vt_lookup_tab kv_type_prog (kv_type_text (Custom s)) = (false, Custom s)) /\
+      (forall io_text s, strip s = s -> str_eqb s EHANDLE = false -> assoc (lower s) vt_lookup_tab = None ->
+         trun lower vt_lookup_tab io_type_prog (io_type_text io_text (Custom s)) = (false, Custom s)) /\
+      (forall raw b c, trun lower vt_lookup_tab kv_type_prog raw = (b, Known c) ->
+         trun lower vt_lookup_tab kv_type_prog (kv_type_text (Known c)) = (false, Known c)))
+  /\ (forall v, In v entity_kind_values ->
+        kw_dispatch pf_token_folded pf_directives entity_kind_values (kind_written kind_writer_ops v) = KKind v)
+  /\ (forall (size : N -> N) (maxsz : N) (all : list N) (pairs : list (N * N)) (order : list N),
+        nodupN all = true -> pairs_ok all pairs = true ->
+        (forall x, count_occ N.eq_dec order x = count_occ N.eq_dec (leftovers all (pair_loop gen_bcfg size maxsz pairs)) x) ->
+        forall x, count_occ N.eq_dec (List.concat (build_with gen_bcfg size maxsz pairs order)) x = count_occ N.eq_dec all x)
+  /\ multi_lazy_equals_eager_at lazy_via_get_ent engine_dbase_merge.
+Proof.
+  intros H. destruct (and8_true _ _ _ _ _ _ _ _ H) as (L & K & I & T & W & B & V & M). clear H.
+  destruct (line_cfg_ok_parts _ L) as [C2 R].
+  unfold multi_modes_agree in M. apply andb_true_iff in M as [M _]. apply merge_is_first_eq in M.
+  pose proof (type_text_property_gen kv_type_prog io_type_prog vt_lookup_tab TARGET_DESTINATION K I T) as (P1 & P2 & P3).
+  split; [|split; [|split; [|split]]].
+  - unfold entity_text_roundtrip_at. intros. apply entity_roundtrip; assumption.
+  - exact (conj P1 (conj P2 P3)).
+  - apply kind_keyword_roundtrip. exact W.
+  - intros. apply build_with_places_every_entity; assumption.
+  - rewrite M. unfold multi_lazy_equals_eager_at. intros. apply multi_lazy_equals_eager; assumption.
+Qed.
